@@ -15,7 +15,7 @@ from simkit.clock import EPOCH
 from simkit.harness import Check, bump, new_result, rng_for, violation
 from simkit.loop import sim_run
 from simkit.net import Policy, SimNet
-from simkit.world import Recorder, Seams, quiet_logging
+from simkit.world import Recorder, Seams, quiet_logging, seed_unseeded_rng
 
 from gallia.services.uds.core import service
 from gallia.services.uds.core.constants import UDSIsoServices
@@ -224,6 +224,7 @@ class C13(Check):
             rec = Recorder(loop)
             holder["rec"] = rec
             seams.set(server_mod, "time", lambda: EPOCH + loop.time())
+            seed_unseeded_rng(seams, plan["net_seed"])
             behavior = UDSServer.Behavior(**sw)
             try:
                 server = RandomUDSServer(plan["ecu_seed"], RandomUDSServer.RandomnessParameters(**plan["params"]), behavior)
